@@ -495,7 +495,7 @@ int main(int argc, char **argv) {
         while (next < b) {
             vf_sh->cur = next; vf_sh->done = 0; vf_sh->where[0] = 0; fflush(NULL);
             pid_t pid = fork();
-            if (pid == 0) { signal(SIGALRM, vf_alarm); vf_install_fault_handlers(); for (long i = next; i < b; i++) { vf_sh->cur = i; alarm(timeout); case_fn(i); G->resume_cfg = 0; G->resumes = 0; } vf_sh->done = 1; fflush(NULL); _exit(0); }
+            if (pid == 0) { signal(SIGALRM, vf_alarm); vf_install_fault_handlers(); for (long i = next; i < b; i++) { vf_sh->cur = i; vf_case_timer(timeout); case_fn(i); G->resume_cfg = 0; G->resumes = 0; } vf_sh->done = 1; fflush(NULL); _exit(0); }
             int st = 0; waitpid(pid, &st, 0); vf_last_child = pid;
             if (WIFEXITED(st) && WEXITSTATUS(st) == 0 && vf_sh->done) break;
             long bad = vf_sh->cur; int kind, code;
